@@ -125,8 +125,8 @@ PROPS = {
         engines=[("plug", 4000, 60000), ("sys", 1500, 30000)],
         theorems=["C17_builtin4", "C17_builtin6", "C17_netmask4", "C17_router4", "C17_searchdomains4", "C17_searchdomains6", "C17_staticroute4", "C17_dns4", "C17_dns6", "C17_mtu4",
                   "C17_nbp4", "C17_nbp6", "C17_leasetime4", "C17_ipv6only4", "C17_autoconfigure4", "C17_sleep4", "C17_sleep6", "C17_inrange_mtu", "C17_inrange_seconds", "C17_D17_prefix_refuted",
-                  "C11_builtin_preserve_mt", "C12_builtin_preserve_mt", "C11_builtin_preserve_echo_opts", "C12_builtin_preserve_cid"],
-        modules=["CoreDhcp.Props.C17", "CoreDhcp.Props.Builtin"],
+                  "C11_builtin_preserve_mt", "C12_builtin_preserve_mt", "C11_builtin_preserve_echo_opts", "C12_builtin_preserve_cid", "SYS_C17_delivered4"],
+        modules=["CoreDhcp.Props.C17", "CoreDhcp.Props.Builtin", "CoreDhcp.Props.System"],
         trusted_base=[TB_PLUG],
         assumptions=["in-range MTU (0..65535) and durations (0 .. 2^32 s): out-of-range values are truncated on the wire and reported as drift only (outside the property's quantifier)",
                      "DHCPv6 plugins that append (nbp) are judged on responses that do not already carry their option and on request lists without repeated codes (C17.dom6)"],
